@@ -27,4 +27,16 @@ Definition f_read_session :=
     fid_objectSize fid_objectType
     (fid_of "LogContainer" "compressionMethod") (fid_of "LogContainer" "uncompressedFileSize") (fid_of "LogContainer" "compressedFile")
     (fid_of "FileStatistics" "statisticsSize") inflate.
+Definition f_read_session_closing :=
+  read_session_closing cs scan_p cap factory_table C_stats C_lc C_ohb
+    fid_objectSize fid_objectType
+    (fid_of "LogContainer" "compressionMethod") (fid_of "LogContainer" "uncompressedFileSize") (fid_of "LogContainer" "compressedFile")
+    (fid_of "FileStatistics" "statisticsSize") inflate.
+(* the same with the search of the signature as it was before repo fix b825602 (gives up at end of file only) *)
+Definition f_read_session_closing_old :=
+  read_session_closing cs {| sp_sig := sp_sig scan_p; sp_rules := sp_rules scan_p; sp_field := sp_field scan_p; sp_stop_on_fail := false |}
+    cap factory_table C_stats C_lc C_ohb
+    fid_objectSize fid_objectType
+    (fid_of "LogContainer" "compressionMethod") (fid_of "LogContainer" "uncompressedFileSize") (fid_of "LogContainer" "compressedFile")
+    (fid_of "FileStatistics" "statisticsSize") inflate.
 End WithZlib.
